@@ -23,9 +23,14 @@ open YaegiVerif YaegiVerif.Const YaegiVerif.Proofs.C03
     /repo/interp/typecheck.go, are the ones the proofs use -/
 theorem reprfacts_tie : Generated.C03.reprFacts = Expected.C03.reprFacts := by decide
 
-/-- tie: the `constOp` map of cfg.go, and for each folding function of op.go the go/constant entry point and token it
-    uses, whether it wraps its operands in `constant.ToInt`, the Go operator of each typed arm, and the
-    integer-quotient switch of `quoConst` -/
+/-- tie: the `constOp` map of cfg.go (comparisons included, d04f498), for each folding function the go/constant entry
+    point and token it uses, whether it wraps its operands in `constant.ToInt`, the Go operator of each typed arm, the
+    integer-quotient switch of `quoConst`, the `constToken` table of typecheck.go, and the nineteen `CheckFacts` about
+    the checks that the repairs of the third round put around the folds (constExpr / constOverflow framing of both
+    fold sites, the 512-bit and 1074 limits, the shift clamp, the exact integer quotient, no early return for
+    quotients, the form of zeroConst, untyped-stays-untyped, floating-point shift counts, checked conversions of
+    typed constants, representable through constValue, bool ↔ non-bool conversions, folding of && and ||, no type
+    pushed from a boolean parent, len of a constant string, rune literals keeping their type) -/
 theorem evalfacts_tie : Generated.C03.evalFacts = Expected.C03.evalFacts := by decide
 
 /-- tie: the iota bookkeeping of gta.go / cfg.go and the implicit-repetition block of ast.go -/
@@ -113,56 +118,141 @@ example : reprY Expected.C03.reprFactsBefore .int8 200 = true ∧ reprY Expected
 
 /-! ### evaluation of constant expressions: one walk of the interpreter (`var c = e`, operands, first walk) -/
 
-/-- full statement for one walk (false today, see the witnesses below): the interpreter's folding of an
-    expression tree gives the value and type of the specification, and rejects what the specification rejects -/
+/-- the full statement for one walk over the integer fragment: the interpreter's folding gives the value and type of
+    the specification, and rejects exactly what the specification rejects. After the repairs of the third round it
+    fails only for integer literals of more than 512 bits (`huge_literal_witness`, F03-21). -/
 def evalY_full_statement : Prop :=
-  ∀ (i : Nat) (e : CExpr), unmodelled e = none →
-    Class.compare (evalY Expected.C03.facts { iota := i } none e) (Spec.evalGo i e) = .same
+  ∀ (env : Env) (e : CExpr), env.pass2 = false → intShape e = true →
+    Class.compare (evalY Expected.C03.facts env none e) (Spec.evalGo env.iota e) = .same
 
-/-- **Integer constant expressions** — for every expression tree over integer and rune literals of any magnitude,
-    `iota`, unary `+ - ^`, the operators `+ - * / % & | ^ &^ << >>`, conversions to the eleven integer types and
-    parentheses, every value of `iota`, **in every first walk** (`env.pass2 = false`: inside or outside a constant
-    declaration, whether or not the package scope already has variables — since 08f21a9 `fixUntyped` no longer
-    indexes `sc.types` for a parenthesised constant, so the former restriction to a non-empty frame is gone): whenever
-    the Go specification accepts the expression, the walk folds it to the same value with the same type (an untyped
-    kind or a basic type), the value being held as a go/constant value while untyped and as a reflect value of the
-    kind once typed. The only side condition besides acceptance by Go is the decidable `noRuneQuo` (no quotient of an
-    untyped rune constant by an untyped integer constant, which the interpreter types `int`, F03-6). Proved by
-    structural induction (Proofs/C03Main.lean). The converse — what Go rejects is rejected — fails in general
-    (witnesses below; it holds where `representableConst` is the only check, see `conv_untyped_exact`). -/
-theorem evalY_eq_spec_env (env : Env) (hp2 : env.pass2 = false) (e : CExpr) (hshape : intShape e = true)
-    (hq : noRuneQuo env.iota e = true) (gv : Spec.GV) (hgo : Spec.evalGo env.iota e = .ok gv) :
+/-- **Integer constant expressions, both directions** — for every expression tree over integer and rune literals (of
+    at most 512 bits, `litBound`), `iota`, unary `+ - ^`, the operators `+ - * / % & | ^ &^ << >>`, conversions to
+    the eleven integer types and parentheses, every value of `iota`, in every first walk (`env.pass2 = false`: inside
+    or outside a constant declaration, whether or not the package scope already has variables): one walk of the
+    interpreter has **exactly the outcome of the Go specification** — the same value with the same type (an untyped
+    kind or a basic type; held as a go/constant value while untyped, as a reflect value of the kind once typed), or
+    a compile error on both sides: mismatched operand types, an operand or a result that is not representable in the
+    operand type (typed arithmetic is recomputed exactly by `check.constExpr` since 5e2cd1c: `int8(100) + int8(100)`,
+    `-uint8(1)`, `int64(1) << 63` are rejected), a constant zero divisor (typed ones included), a conversion of a typed
+    or untyped constant that does not fit (7402c20), an untyped result of more than 512 bits or a shift count above
+    1074 (b425d98). The quotient goes through the operand conversions like every other operator (4bcc5b4), so
+    `'a' / 2` is a rune constant: the former side condition `noRuneQuo` is gone, and so is the restriction to
+    expressions that Go accepts. Proved by structural induction (Proofs/C03Main.lean `evalY_int_rel`, node lemmas
+    `binNode_rel`, `shiftNode_rel`, `unNode_rel`, `convNode_rel`). The only side condition left is `litBound`. -/
+theorem evalY_eq_spec_partial (env : Env) (hp2 : env.pass2 = false) (e : CExpr) (hshape : intShape e = true)
+    (hl : litBound e = true) :
+    Class.compare (evalY Expected.C03.facts env none e) (Spec.evalGo env.iota e) = .same :=
+  compare_of_rel (evalY_int_rel env hp2 e hshape hl)
+
+/-- the accepting half in the form the declaration theorems use: whenever the specification accepts the expression
+    the walk folds it to the same value with the same type -/
+theorem evalY_eq_spec_accepts (env : Env) (hp2 : env.pass2 = false) (e : CExpr) (hshape : intShape e = true)
+    (hl : litBound e = true) (gv : Spec.GV) (hgo : Spec.evalGo env.iota e = .ok gv) :
     ∃ n, evalY Expected.C03.facts env none e = .ok n ∧ n.ty = gv.ty ∧ Class.absRV n.rv = gv.v := by
-  obtain ⟨n, hn, hinv⟩ := evalY_int_correct env hp2 e hshape hq gv hgo
+  obtain ⟨n, hn, hinv⟩ := evalY_int_correct env hp2 e hshape hl gv hgo
   refine ⟨n, hn, hinv.1, ?_⟩
   rcases hinv.shape with ⟨_, _, _, rfl, _, hrv⟩ | ⟨_, _, rfl, _, hrv, _⟩ <;> simp [Class.absRV, hrv]
 
-/-- the instance used by the declaration theorems and by `evalY_full_statement`: `var c = e`, operands, `iota = i` -/
-theorem evalY_eq_spec_partial (i : Nat) (e : CExpr) (hshape : intShape e = true) (hq : noRuneQuo i e = true)
-    (gv : Spec.GV) (hgo : Spec.evalGo i e = .ok gv) :
-    ∃ n, evalY Expected.C03.facts { iota := i } none e = .ok n ∧ n.ty = gv.ty ∧ Class.absRV n.rv = gv.v :=
-  evalY_eq_spec_env { iota := i } rfl e hshape hq gv hgo
+/-- the rejecting half: what the specification rejects is a compile error of the walk — not a Go panic, not a
+    wrapped value -/
+theorem evalY_eq_spec_rejects (env : Env) (hp2 : env.pass2 = false) (e : CExpr) (hshape : intShape e = true)
+    (hl : litBound e = true) (hgo : Spec.evalGo env.iota e = .reject) :
+    evalY Expected.C03.facts env none e = .reject :=
+  evalY_int_reject env hp2 e hshape hl hgo
 
-/-- non-vacuity of the generalisation: `3 * (1) + int8(2)` in the first walk of the first constant declaration of a
-    package (empty `sc.types`) — a Go panic before 08f21a9 -/
-example : (evalY Expected.C03.facts { iota := 0, inConst := true, noFrame := true } none
-      (.bin .add (.bin .mul (.int 3) (.par (.int 1))) (.conv (.i .int8) (.int 2)))).bind (fun n => .ok (n.rv, n.ty)) =
-    .ok (.r (.i .int8) (.int 5), .t (.i .int8)) := by decide
+/-- the same about the facts regenerated from the current source -/
+theorem evalY_eq_spec_generated (env : Env) (hp2 : env.pass2 = false) (e : CExpr) (hshape : intShape e = true)
+    (hl : litBound e = true) :
+    Class.compare (evalY { repr := Generated.C03.reprFacts, eval := Generated.C03.evalFacts } env none e)
+      (Spec.evalGo env.iota e) = .same := by
+  rw [reprfacts_tie, evalfacts_tie]; exact evalY_eq_spec_partial env hp2 e hshape hl
+
+/-- **what `litBound` excludes is a real difference** (F03-21): an integer literal of more than 512 bits is a
+    constant overflow for the toolchain; the interpreter has no limit on literals, only on results
+    (`(1<<600 + 12345) >> 599` is 2) -/
+theorem huge_literal_witness :
+    (evalY Expected.C03.facts { iota := 0 } none (.bin .shr (.int (2 ^ 600 + 12345)) (.int 599))).bind (fun n => .ok n.rv) =
+      .ok (.c (.int 2)) ∧
+    Spec.evalGo 0 (.bin .shr (.int (2 ^ 600 + 12345)) (.int 599)) = .reject ∧
+    litBound (.bin .shr (.int (2 ^ 600 + 12345)) (.int 599)) = false := by
+  refine ⟨?_, ?_, ?_⟩ <;> (set_option exponentiation.threshold 1024 in decide +kernel)
+
+theorem evalY_full_statement_false : ¬ evalY_full_statement := by
+  intro h
+  have h1 := h { iota := 0 } (.bin .shr (.int (2 ^ 600 + 12345)) (.int 599)) rfl rfl
+  revert h1
+  set_option exponentiation.threshold 1024 in decide +kernel
+
+/-- non-vacuity: a depth-5 tree with a 2^200 literal, typed and untyped operands, a shift, a conversion and `iota`
+    is in the domain; it evaluates to `-35` of type int8 -/
+def exTree : CExpr :=
+  .bin .sub (.conv (.i .int8) (.bin .shr (.bin .shl (.int 1) (.int 200)) (.int 198)))
+    (.bin .mul (.par (.bin .add (.iota) (.rune 10))) (.un .neg (.un .bitNot (.int 2))))
+example : intShape exTree = true ∧ litBound exTree = true ∧
+    Spec.evalGo 3 exTree = .ok ⟨.int (-35), .t (.i .int8)⟩ ∧
+    (evalY Expected.C03.facts { iota := 3 } none exTree).bind (fun n => .ok (n.rv, n.ty)) =
+      .ok (.r (.i .int8) (.int (-35)), .t (.i .int8)) := by decide
+
+/-- non-vacuity of the rejecting half: expressions of the domain that both sides reject — the former findings
+    F03-1 (`int8(100) + int8(100)`, `-uint8(1)`, `int64(1) << 63`), F03-4 (`int(1) / int(0)`), F03-7
+    (`int8(7) / int16(2)`), F03-8 (`int8(int16(300))`) — and the typing of `'a' / 2` (F03-6) -/
+example :
+    evalY Expected.C03.facts { iota := 0 } none (.bin .add (.conv (.i .int8) (.int 100)) (.conv (.i .int8) (.int 100))) = .reject ∧
+    Spec.evalGo 0 (.bin .add (.conv (.i .int8) (.int 100)) (.conv (.i .int8) (.int 100))) = .reject ∧
+    evalY Expected.C03.facts { iota := 0 } none (.un .neg (.conv (.i .uint8) (.int 1))) = .reject ∧
+    Spec.evalGo 0 (.un .neg (.conv (.i .uint8) (.int 1))) = .reject ∧
+    evalY Expected.C03.facts { iota := 0 } none (.bin .shl (.conv (.i .int64) (.int 1)) (.int 63)) = .reject ∧
+    Spec.evalGo 0 (.bin .shl (.conv (.i .int64) (.int 1)) (.int 63)) = .reject ∧
+    evalY Expected.C03.facts { iota := 0 } none (.bin .quo (.conv (.i .int) (.int 1)) (.conv (.i .int) (.int 0))) = .reject ∧
+    Spec.evalGo 0 (.bin .quo (.conv (.i .int) (.int 1)) (.conv (.i .int) (.int 0))) = .reject ∧
+    evalY Expected.C03.facts { iota := 0 } none (.bin .quo (.conv (.i .int8) (.int 7)) (.conv (.i .int16) (.int 2))) = .reject ∧
+    Spec.evalGo 0 (.bin .quo (.conv (.i .int8) (.int 7)) (.conv (.i .int16) (.int 2))) = .reject ∧
+    evalY Expected.C03.facts { iota := 0 } none (.conv (.i .int8) (.conv (.i .int16) (.int 300))) = .reject ∧
+    Spec.evalGo 0 (.conv (.i .int8) (.conv (.i .int16) (.int 300))) = .reject ∧
+    (evalY Expected.C03.facts { iota := 0 } none (.bin .quo (.rune 97) (.int 2))).bind (fun n => .ok (n.rv, n.ty)) =
+      .ok (.c (.int 48), .u .rune) ∧
+    Spec.evalGo 0 (.bin .quo (.rune 97) (.int 2)) = .ok ⟨.int 48, .u .rune⟩ := by decide
+
+/-- **what the repairs removed** (old facts: `evalFactsBeforeR3` is what the extractor emits for a tree in which the
+    repairs of the third round are reverted; the model then computes what the code did): typed arithmetic wrapped
+    (`int8(100) + int8(100)` was −56, F03-1), a typed zero divisor was a Go panic (F03-4), `'a' / 2` was typed int
+    (F03-6), `int8(7) / int16(2)` was 3 (F03-7), `int8(int16(300))` was 44 (F03-8) -/
+theorem before_round3_witness :
+    let FB : Facts := { Expected.C03.facts with eval := Expected.C03.evalFactsBeforeR3 }
+    (evalY FB { iota := 0 } none (.bin .add (.conv (.i .int8) (.int 100)) (.conv (.i .int8) (.int 100)))).bind (fun n => .ok n.rv) =
+      .ok (.r (.i .int8) (.int (-56))) ∧
+    evalY FB { iota := 0 } none (.bin .quo (.conv (.i .int) (.int 1)) (.conv (.i .int) (.int 0))) = .crash ∧
+    (evalY FB { iota := 0 } none (.bin .quo (.rune 97) (.int 2))).bind (fun n => .ok (n.rv, n.ty)) = .ok (.c (.int 48), .u .int) ∧
+    (evalY FB { iota := 0 } none (.bin .quo (.conv (.i .int8) (.int 7)) (.conv (.i .int16) (.int 2)))).bind (fun n => .ok n.rv) =
+      .ok (.r (.i .int8) (.int 3)) ∧
+    (evalY FB { iota := 0 } none (.conv (.i .int8) (.conv (.i .int16) (.int 300)))).bind (fun n => .ok n.rv) =
+      .ok (.r (.i .int8) (.int 44)) := by decide
+
+set_option exponentiation.threshold 1024 in
+set_option maxRecDepth 8000 in
+/-- the limits of the toolchain (F03-9, fixed by b425d98): `1 << 600 >> 599` is rejected by both sides (it was 2);
+    a shift count above 1074 is rejected however small the result -/
+example :
+    evalY Expected.C03.facts { iota := 0 } none (.bin .shr (.bin .shl (.int 1) (.int 600)) (.int 599)) = .reject ∧
+    Spec.evalGo 0 (.bin .shr (.bin .shl (.int 1) (.int 600)) (.int 599)) = .reject ∧
+    evalY Expected.C03.facts { iota := 0 } none (.bin .shr (.int 1) (.int 1075)) = .reject ∧
+    Spec.evalGo 0 (.bin .shr (.int 1) (.int 1075)) = .reject ∧
+    (evalY { Expected.C03.facts with eval := Expected.C03.evalFactsBeforeR3 } { iota := 0 } none
+        (.bin .shr (.bin .shl (.int 1) (.int 600)) (.int 599))).bind (fun n => .ok n.rv) = .ok (.c (.int 2)) := by
+  decide +kernel
 
 /-- **The quotient of two integer constants is the integer quotient whatever the context** (repair of F48): for every
-    type `nty` the pre-order pass may have copied onto the node — untyped integer, untyped float (the second walk of
-    `const c = 7/2 + 0.5`), the declared type of `var f float64 = 3/2` or `var v int = (7/2)*2` — and all integers
-    `p`, `q ≠ 0`, `quoConst` folds `p / q` to the truncated integer quotient, as the specification requires of two
-    untyped integer constants; and likewise every other arithmetic operator on two Int-kinded constants. -/
+    type `nty` the pre-order pass may have copied onto the node and all integers `p`, `q ≠ 0`, `quoConst` folds `p / q`
+    to the truncated integer quotient, as the specification requires of two untyped integer constants; and likewise
+    every other arithmetic operator on two Int-kinded constants. -/
 theorem quo_const_int_any_type (a : Act) (ha : isArith a = true) (nty : Ty) (p q : Int)
     (hz : ¬ (needsNZ a = true ∧ q = 0)) :
     foldBinY Expected.C03.facts a nty (.c (.int p)) (.c (.int q)) = .ok (.c (.int (iop a p q))) :=
   foldBinY_const a ha nty p q hz
 
 /-- **What the repair of F48 removed**: with the switch of `quoConst` on the node type (the code before), the same
-    fold under a pushed-down floating-point or typed integer type was the exact rational quotient — `7/2` was 7/2, then
-    `(7/2)*2` = 7 truncated through the declared type, `var f float64 = 3/2` was 1.5. This is what the model computes
-    for a source in which the repair is reverted (the extractor then emits `rule := .nodeType`). -/
+    fold under a pushed-down floating-point or typed integer type was the exact rational quotient. This is what the
+    model computes for a source in which that repair is reverted (the extractor then emits `rule := .nodeType`). -/
 theorem quo_before_F48_witness :
     foldBinY { Expected.C03.facts with eval := Expected.C03.evalFactsBeforeF48 } .quo (.t .f64) (.c (.int 3)) (.c (.int 2)) =
       .ok (.c (.flt ⟨3, 2⟩)) ∧
@@ -172,9 +262,11 @@ theorem quo_before_F48_witness :
       .ok (.c (.int 3)) ∧
     foldBinY Expected.C03.facts .quo (.t .f64) (.c (.int 3)) (.c (.int 2)) = .ok (.c (.int 1)) := by decide
 
-/-- the regression programs of the repair, model = specification: `var f float64 = 3/2` is 1, `var v int = (7/2)*2`
-    is 6, `var c = (2/3)-(16|17)` is −17, `const c = 7/2 + 0.5` is 3.5 (all three walks), `const c = int8(1) + 7/2`
-    is 4, and a floating-point operand still gives the real quotient (`7/2.0` is 3.5) -/
+/-- the regression programs of the earlier repairs, model = specification: `var f float64 = 3/2` is 1,
+    `var v int = (7/2)*2` is 6, `var c = (2/3)-(16|17)` is −17, `const c = 7/2 + 0.5` is 3.5 (all three walks),
+    `const c = int8(1) + 7/2` is 4, a floating-point operand still gives the real quotient (`7/2.0` is 3.5),
+    `const c int = 3 * (1)` is 3 (F03-16), `const c = float64(0.5 + 0.25)` is 0.75 (the former replay of F03-14: the
+    operand of the conversion is an untyped constant again in the later walks, 7973ebe) -/
 example :
     varDeclY Expected.C03.facts (some .f64) (.bin .quo (.int 3) (.int 2)) = .ok (.flt ⟨1, 1⟩, .f64) ∧
     Spec.declGo 0 (some .f64) (.bin .quo (.int 3) (.int 2)) = .ok (.flt ⟨1, 1⟩, .f64) ∧
@@ -185,51 +277,48 @@ example :
     constDeclY Expected.C03.facts none (.bin .add (.bin .quo (.int 7) (.int 2)) (.flt ⟨1, 2⟩)) = .ok [(.flt ⟨7, 2⟩, .f64)] ∧
     Spec.declGo 0 none (.bin .add (.bin .quo (.int 7) (.int 2)) (.flt ⟨1, 2⟩)) = .ok (.flt ⟨7, 2⟩, .f64) ∧
     constDeclY Expected.C03.facts none (.bin .add (.conv (.i .int8) (.int 1)) (.bin .quo (.int 7) (.int 2))) = .ok [(.int 4, .i .int8)] ∧
-    constDeclY Expected.C03.facts none (.bin .quo (.int 7) (.flt ⟨2, 1⟩)) = .ok [(.flt ⟨7, 2⟩, .f64)] := by decide
+    constDeclY Expected.C03.facts none (.bin .quo (.int 7) (.flt ⟨2, 1⟩)) = .ok [(.flt ⟨7, 2⟩, .f64)] ∧
+    constDeclY Expected.C03.facts (some (.i .int)) (.bin .mul (.int 3) (.par (.int 1))) = .ok [(.int 3, .i .int)] ∧
+    Spec.declGo 0 (some (.i .int)) (.bin .mul (.int 3) (.par (.int 1))) = .ok (.int 3, .i .int) ∧
+    constDeclY Expected.C03.facts none (.conv .f64 (.bin .add (.flt ⟨1, 2⟩) (.flt ⟨1, 4⟩))) = .ok [(.flt ⟨3, 4⟩, .f64)] ∧
+    Spec.declGo 0 none (.conv .f64 (.bin .add (.flt ⟨1, 2⟩) (.flt ⟨1, 4⟩))) = .ok (.flt ⟨3, 4⟩, .f64) := by decide
 
-/-- the same about the facts regenerated from the current source -/
-theorem evalY_eq_spec_generated (i : Nat) (e : CExpr) (hshape : intShape e = true) (hq : noRuneQuo i e = true)
-    (gv : Spec.GV) (hgo : Spec.evalGo i e = .ok gv) :
-    ∃ n, evalY { repr := Generated.C03.reprFacts, eval := Generated.C03.evalFacts } { iota := i } none e = .ok n ∧
-      n.ty = gv.ty ∧ Class.absRV n.rv = gv.v := by
-  rw [reprfacts_tie, evalfacts_tie]; exact evalY_eq_spec_partial i e hshape hq gv hgo
+/-- the regression programs of the repairs of the third round outside the integer fragment, model = specification:
+    `const c = 1 < 2` is true (F03-10, d04f498: before, the comparison was not folded and outside the model),
+    `const c = 8 >> float32(2)` is 2 (F03-13, 04c8232: before, rejected), `var c = uint64(-1 << len("ab"))` is rejected
+    (F03-15, 3d1d9b9: before, `len` was a run-time call), `const c = float32(3e38) * 10` is rejected (F03-12: before,
+    +Inf — outside the model) -/
+example :
+    constDeclY Expected.C03.facts none (.bin .lt (.int 1) (.int 2)) = .ok [(.bool true, .bool)] ∧
+    Spec.declGo 0 none (.bin .lt (.int 1) (.int 2)) = .ok (.bool true, .bool) ∧
+    constDeclY { Expected.C03.facts with eval := Expected.C03.evalFactsBeforeR3 } none (.bin .lt (.int 1) (.int 2)) = .unm "bool-ops" ∧
+    constDeclY Expected.C03.facts none (.bin .shr (.int 8) (.conv .f32 (.int 2))) = .ok [(.int 2, .i .int)] ∧
+    Spec.declGo 0 none (.bin .shr (.int 8) (.conv .f32 (.int 2))) = .ok (.int 2, .i .int) ∧
+    constDeclY { Expected.C03.facts with eval := Expected.C03.evalFactsBeforeR3 } none (.bin .shr (.int 8) (.conv .f32 (.int 2))) =
+      .rejectOrCrash ∧
+    varDeclY Expected.C03.facts none (.conv (.i .uint64) (.bin .shl (.un .neg (.int 1)) (.len (.str [97, 98])))) = .reject ∧
+    Spec.declGo 0 none (.conv (.i .uint64) (.bin .shl (.un .neg (.int 1)) (.len (.str [97, 98])))) = .reject ∧
+    varDeclY { Expected.C03.facts with eval := Expected.C03.evalFactsBeforeR3 } none
+      (.conv (.i .uint64) (.bin .shl (.un .neg (.int 1)) (.len (.str [97, 98])))) = .unm "len-at-run-time" ∧
+    constDeclY Expected.C03.facts none (.bin .mul (.conv .f32 (.flt ⟨3 * 10 ^ 38, 1⟩)) (.int 10)) = .rejectOrCrash ∧
+    Spec.declGo 0 none (.bin .mul (.conv .f32 (.flt ⟨3 * 10 ^ 38, 1⟩)) (.int 10)) = .reject := by decide +kernel
 
-/-- non-vacuity: a depth-5 tree with a 2^200 literal, typed and untyped operands, a shift, a conversion and `iota`
-    is in the domain; it evaluates to `-35` of type int8 -/
-def exTree : CExpr :=
-  .bin .sub (.conv (.i .int8) (.bin .shr (.bin .shl (.int 1) (.int 200)) (.int 198)))
-    (.bin .mul (.par (.bin .add (.iota) (.rune 10))) (.un .neg (.un .bitNot (.int 2))))
-example : intShape exTree = true ∧ noRuneQuo 3 exTree = true ∧
-    Spec.evalGo 3 exTree = .ok ⟨.int (-35), .t (.i .int8)⟩ ∧
-    (evalY Expected.C03.facts { iota := 3 } none exTree).bind (fun n => .ok (n.rv, n.ty)) =
-      .ok (.r (.i .int8) (.int (-35)), .t (.i .int8)) := by decide
+/-! ### declarations without a declared type -/
 
-/-- **`var c = e` at package level** (integer fragment without character literals): the declared variable gets
-    the value and the default type Go gives it -/
-theorem var_decl_correct (e : CExpr) (hshape : intShape e = true) (hq : noRuneQuo 0 e = true) (hr : noRune e = true)
-    (v : CV) (t : BT) (hgo : Spec.declGo 0 none e = .ok (v, t)) :
-    varDeclY Expected.C03.facts none e = .ok (v, t) := by
-  simp only [Spec.declGo] at hgo
-  obtain ⟨gv, hgv, hasg⟩ := bind_eq_ok hgo
-  obtain ⟨n, hn, hinv⟩ := evalY_int_correct { iota := 0 } rfl e hshape hq gv hgv
-  have ht : t = Spec.defaultGo gv.ty := by
-    obtain ⟨k, hk⟩ := defaultGo_int gv n hinv
-    simp only [Spec.assignGo] at hasg
-    split at hasg
-    · split at hasg
-      · injection hasg with h; injection h with _ h2; exact h2.symm
-      · cases hasg
-    · split at hasg
-      · split at hasg
-        · injection hasg with h; injection h with _ h2; exact h2.symm
-        · cases hasg
-      · cases hasg
-  subst ht
-  simp only [varDeclY, unmodelled, unmodelledU_int false e hshape, gtaNodeType_noRune e hr]
-  show (evalY F0 { iota := 0 } none e).bind _ = _
-  rw [hn]
-  simp only [bind_ok, defaultTypeY_int n gv hinv]
-  exact assign_materialise n gv hinv _ v hasg (defaultGo_int gv n hinv)
+/-- **`var c = e` at package level, both directions**, for every expression of the integer fragment: the model of the
+    declaration *equals* the specification — the value with Go's default type (`int32` for a rune constant:
+    `var c0 = 'a'`, F03-5 fixed by ebd86cd; the former restriction `noRune` is gone), a compile error when the constant
+    does not fit its default type or when the specification rejects `e`. -/
+theorem var_decl_exact (e : CExpr) (hshape : intShape e = true) (hl : litBound e = true) :
+    varDeclY Expected.C03.facts none e = Spec.declGo 0 none e :=
+  Proofs.C03.var_decl_exact e hshape hl
+
+/-- non-vacuity: `var c0 = 'a'` is 97 of type int32 on both sides (int with the code before ebd86cd) -/
+example :
+    varDeclY Expected.C03.facts none (.rune 97) = .ok (.int 97, .i .int32) ∧
+    Spec.declGo 0 none (.rune 97) = .ok (.int 97, .i .int32) ∧
+    varDeclY { Expected.C03.facts with eval := Expected.C03.evalFactsBeforeR3 } none (.rune 97) = .ok (.int 97, .i .int) := by
+  decide
 
 /-- **default types**: for a node holding an integer constant the interpreter's `defaultType` is Go's
     (int for untyped int, int32 for untyped rune, the type itself when typed) -/
@@ -256,16 +345,24 @@ theorem iota_block_generated (F : Facts) (specs : List Spec)
   rw [declfacts_tie]; exact iota_block_correct F specs h
 
 /-- **`const c = e` at package level, untyped integer expressions** (integer and rune literals, iota, unary and
-    binary integer operators including shifts, parentheses; no conversions): the three walks of the declaration
-    (gta on the block, gta on the spec, cfg — the later ones with the type of the first pushed down every
-    operator) and the use of the constant yield exactly the value and default type of the specification, for every
-    `iota`, whether or not `sc.types` is still empty. (Proofs/C03Const.lean, structural induction with the pushed
-    type generalised.) -/
-theorem const_decl_correct (i : Nat) (e : CExpr) (hs : ufrag e = true) (hq : noRuneQuo i e = true)
+    binary integer operators including shifts and quotients of rune constants, parentheses; no conversions): the three
+    walks of the declaration (gta on the block, gta on the spec, cfg — the later ones with the type of the first pushed
+    down every operator, which changes nothing since an operation on untyped constants stays untyped, 7973ebe:
+    `evalY_ufrag_indep`) and the use of the constant yield exactly the value and default type of the specification,
+    for every `iota`, whether or not `sc.types` is still empty. -/
+theorem const_decl_correct (i : Nat) (e : CExpr) (hs : ufrag e = true) (hl : litBound e = true)
     (v : CV × BT) (hgo : Spec.declGo i none e = .ok v) : SpecOk Expected.C03.facts i none e := by
   intro first
-  obtain ⟨n, m, h1, h2, h3⟩ := const_decl_stages i e hs hq v hgo first
+  obtain ⟨n, m, h1, h2, h3⟩ := const_decl_stages i e hs hl v hgo first
   exact ⟨n, m, v, h1, h2, h3, hgo⟩
+
+/-- **every walk computes the same node**: on an untyped integer expression neither the (numeric) type pushed down by
+    the declaration nor the walk (first, second, inside or outside a constant declaration, empty frame or not) changes
+    what the interpreter computes — the statement behind the repair of F03-2 -/
+theorem untyped_expr_walk_independent (e : CExpr) (hs : ufrag e = true) (env : Env) (forced : Option Ty)
+    (hf : ∀ f, forced = some f → f.isNumber = true) :
+    evalY Expected.C03.facts env forced e = evalY Expected.C03.facts { iota := env.iota } none e :=
+  (evalY_ufrag_indep e hs env forced hf).1
 
 /-- **Blocks of untyped integer constants, end to end**: for every block length and every pattern of implicit
     repetition, if each resolved spec is an untyped-integer expression without declared type that Go accepts with
@@ -273,12 +370,12 @@ theorem const_decl_correct (i : Nat) (e : CExpr) (hs : ufrag e = true) (hq : noR
     specification. -/
 theorem block_untyped_correct (specs : List Spec)
     (h : ∀ j r, (Spec.resolveGo none specs)[j]? = some r →
-      ∃ e v, r = some (none, e) ∧ ufrag e = true ∧ noRuneQuo j e = true ∧ Spec.declGo j none e = .ok v) :
+      ∃ e v, r = some (none, e) ∧ ufrag e = true ∧ litBound e = true ∧ Spec.declGo j none e = .ok v) :
     ∃ vs, blockY Expected.C03.facts Expected.C03.declFacts specs = .ok vs ∧ Spec.blockGo specs = vs.map Res.ok := by
   apply iota_block_correct
   intro j r hr
-  obtain ⟨e, v, hre, hs, hq, hgo⟩ := h j r hr
-  exact ⟨none, e, hre, const_decl_correct j e hs hq v hgo⟩
+  obtain ⟨e, v, hre, hs, hl, hgo⟩ := h j r hr
+  exact ⟨none, e, hre, const_decl_correct j e hs hl v hgo⟩
 
 /-- non-vacuity of the hypothesis of `block_untyped_correct`: `const ( a = 1 << iota; b; c )` -/
 example : ∃ vs, blockY Expected.C03.facts Expected.C03.declFacts
@@ -308,158 +405,119 @@ example : blockY Expected.C03.facts Expected.C03.declFacts exBlock =
       [.ok (.int 0, .i .int), .ok (.int 1, .i .int), .ok (.int 4, .i .uint8), .ok (.int 8, .i .uint8), .ok (.int 40, .i .int)] := by
   decide +kernel
 
-/-! ### exactness where `representableConst` is the only check (since the repair of F03) -/
+/-! ### conversions and declarations with a declared type, both directions -/
 
-/-- **`T(e)` for an untyped integer constant expression, both directions**: for every expression `e` of the integer
-    fragment that Go accepts with an untyped type, every integer type `T` and every `iota`, one walk of the
-    interpreter over `T(e)` has exactly the outcome of the specification — the converted constant of type `T` when
-    the value is representable in `T`, a compile error when it is not (`int8(200)`, `int8(-200)`, `uint8(-1)`,
-    `int64(1 << 63)` are rejected). `compare … = .same` is the relation of `evalY_full_statement`. Before the repair
-    this failed for the values of `inSignedGap`. (Proofs/C03Exact.lean) -/
-theorem conv_untyped_exact (i : Nat) (e : CExpr) (hshape : intShape e = true) (hq : noRuneQuo i e = true)
-    (gv : Spec.GV) (hgo : Spec.evalGo i e = .ok gv) (hun : gv.ty.untyped = true) (k : IKind) :
+/-- **`T(e)`, both directions**, for every expression `e` of the integer fragment — typed or untyped — and every
+    integer type `T`: the instance of `evalY_eq_spec_partial` for a conversion at the top. `int8(200)`, `uint8(-1)`,
+    `int64(1 << 63)` are rejected (untyped operand, `representableConst`), and so are `int8(int16(300))`,
+    `uint8(int8(-1))` (typed operand: a constant conversion since 7402c20). -/
+theorem conv_exact (i : Nat) (e : CExpr) (hshape : intShape e = true) (hl : litBound e = true) (k : IKind) :
     Class.compare (evalY Expected.C03.facts { iota := i } none (.conv (.i k) e)) (Spec.evalGo i (.conv (.i k) e)) = .same :=
-  Proofs.C03.conv_untyped_exact i e hshape hq gv hgo hun k
+  evalY_eq_spec_partial { iota := i } rfl (.conv (.i k) e) (by simpa [intShape] using hshape) (by simpa [litBound] using hl)
 
-/-- non-vacuity: `int8(1 << 200 >> 193)` (128) and `int8(-(1 << 7) - 1)` are in the domain and rejected by both
-    sides, `int8(-(1 << 7))` is accepted by both with value −128 -/
+/-- non-vacuity: `int8(1 << 200 >> 193)` (128), `int8(-(1 << 7) - 1)` and `uint8(int8(-1))` are in the domain and
+    rejected by both sides, `int8(-(1 << 7))` is accepted by both with value −128 -/
 example :
     intShape (.bin .shr (.bin .shl (.int 1) (.int 200)) (.int 193)) = true ∧
     Spec.evalGo 0 (.bin .shr (.bin .shl (.int 1) (.int 200)) (.int 193)) = .ok ⟨.int 128, .u .int⟩ ∧
     evalY Expected.C03.facts { iota := 0 } none (.conv (.i .int8) (.bin .shr (.bin .shl (.int 1) (.int 200)) (.int 193))) = .reject ∧
     Spec.evalGo 0 (.conv (.i .int8) (.bin .shr (.bin .shl (.int 1) (.int 200)) (.int 193))) = .reject ∧
     evalY Expected.C03.facts { iota := 0 } none (.conv (.i .int8) (.bin .sub (.un .neg (.bin .shl (.int 1) (.int 7))) (.int 1))) = .reject ∧
+    evalY Expected.C03.facts { iota := 0 } none (.conv (.i .uint8) (.conv (.i .int8) (.un .neg (.int 1)))) = .reject ∧
+    Spec.evalGo 0 (.conv (.i .uint8) (.conv (.i .int8) (.un .neg (.int 1)))) = .reject ∧
     (evalY Expected.C03.facts { iota := 0 } none (.conv (.i .int8) (.un .neg (.bin .shl (.int 1) (.int 7))))).bind (fun n => .ok n.rv) =
       .ok (.r (.i .int8) (.int (-128))) := by decide
 
-/-- **`var c T = e` at package level, both directions**, `T` any integer type, `e` an initialiser on which the
-    declared type pushed down the tree has no effect (`declShape`: literals, `iota`, unary operators and
-    parentheses over them, conversions of any integer-fragment expression) and that Go accepts as an expression:
-    the model of the declaration *equals* the specification — Go's value when the constant is representable in `T`
-    (or already has type `T`), a compile error otherwise (`var x int8 = 200`, `var x int8 = -129`,
-    `var x int16 = int8(1)` are rejected). A binary operator at the top is excluded: it takes the declared type as
-    its own and is never checked (F03-2). -/
-theorem typed_var_decl_exact (k : IKind) (e : CExpr) (hs : declShape e = true) (hq : noRuneQuo 0 e = true)
-    (gv : Spec.GV) (hgo : Spec.evalGo 0 e = .ok gv) :
+/-- **`var c T = e` at package level, both directions**, `T` any integer type, `e` an untyped operator expression
+    (`ufrag`: `var c0 uint8 = 100 - 101`, `var v int = (7/2)*2` — the operator node stays untyped under the declared
+    type and the assignment performs the conversion and its check, F03-2 fixed by 7973ebe) or an initialiser on which
+    the pushed-down type has no effect for syntactic reasons (`declShape`: literals, unary operators, parentheses,
+    conversions of any integer-fragment expression): the model of the declaration *equals* the specification —
+    Go's value when the constant is representable in `T` (or already has type `T`), a compile error otherwise, and
+    when the specification rejects `e`. Left out: an operator applied to typed operands at the top of the
+    initialiser (F03-18, `typed_decl_mismatch_witness`). -/
+theorem typed_var_decl_exact (k : IKind) (e : CExpr) (hs : declShape e = true ∨ ufrag e = true) (hl : litBound e = true) :
     varDeclY Expected.C03.facts (some (.i k)) e = Spec.declGo 0 (some (.i k)) e :=
-  Proofs.C03.typed_var_decl_exact k e hs hq gv hgo
+  Proofs.C03.typed_var_decl_exact k e hs hl
 
-/-- non-vacuity: the former F03 replay `var c0 int8 = 200` and its neighbours -/
+/-- non-vacuity: the former replays of F03 (`var c0 int8 = 200`) and F03-2 (`var c0 uint8 = 100 - 101`) are rejected
+    by both sides; with the facts before the repairs the second one was 255 -/
 example :
     varDeclY Expected.C03.facts (some (.i .int8)) (.int 200) = .reject ∧ Spec.declGo 0 (some (.i .int8)) (.int 200) = .reject ∧
-    varDeclY Expected.C03.facts (some (.i .int8)) (.un .neg (.int 129)) = .reject ∧
+    varDeclY Expected.C03.facts (some (.i .uint8)) (.bin .sub (.int 100) (.int 101)) = .reject ∧
+    Spec.declGo 0 (some (.i .uint8)) (.bin .sub (.int 100) (.int 101)) = .reject ∧
+    ufrag (.bin .sub (.int 100) (.int 101)) = true ∧
+    varDeclY { Expected.C03.facts with eval := Expected.C03.evalFactsBeforeR3 } (some (.i .uint8)) (.bin .sub (.int 100) (.int 101)) =
+      .ok (.int 255, .i .uint8) ∧
     varDeclY Expected.C03.facts (some (.i .int8)) (.un .neg (.par (.int 128))) = .ok (.int (-128), .i .int8) ∧
     varDeclY Expected.C03.facts (some (.i .int16)) (.conv (.i .int16) (.bin .mul (.int 200) (.int 100))) = .ok (.int 20000, .i .int16) ∧
     declShape (.conv (.i .int16) (.bin .mul (.int 200) (.int 100))) = true := by decide
 
-/-- **`const c T = e`, both directions**, `T` any integer type, `e` a literal chain (`litChain`: literals, `iota`,
-    unary operators, parentheses), for every `iota` and wherever the spec stands in a block: when Go accepts the
-    declaration all three walks and the use yield Go's value (`SpecOk`, so the spec can take part in
-    `iota_block_correct`); when Go rejects it (`const y int16 = 40000`) the first walk of the interpreter rejects it. -/
-theorem typed_const_decl_exact (i : Nat) (k : IKind) (e : CExpr) (hl : litChain e = true)
-    (gv : Spec.GV) (hgo : Spec.evalGo i e = .ok gv) :
+/-- **`const c T = e`, both directions**, `T` any integer type, `e` an untyped operator expression, for every `iota`
+    and wherever the spec stands in a block: when Go accepts the declaration all three walks and the use yield Go's
+    value (`SpecOk`, so the spec can take part in `iota_block_correct`); when Go rejects it (`const y int16 = 40000`,
+    `const c int8 = 100 + 900`) the first walk of the interpreter rejects it. -/
+theorem typed_const_decl_exact (i : Nat) (k : IKind) (e : CExpr) (hs : ufrag e = true) (hl : litBound e = true) :
     (∀ v, Spec.declGo i (some (.i k)) e = .ok v → SpecOk Expected.C03.facts i (some (.i k)) e) ∧
     (Spec.declGo i (some (.i k)) e = .reject → ∀ first, constGtaY Expected.C03.facts i first (some (.i k)) e = .reject) :=
-  Proofs.C03.typed_const_decl_exact i k e hl gv hgo
+  Proofs.C03.typed_const_decl_exact i k e hs hl
 
-/-- **Blocks of integer constants with or without declared types, end to end**: every resolved spec is either an
-    untyped-integer expression without declared type (as in `block_untyped_correct`) or a literal chain with a declared
-    integer type (`const ( a int8 = iota; b; c )`), accepted by Go with `iota` = its index: the interpreter model gives
-    the block exactly the values and types of the specification. -/
+/-- **Blocks of integer constants with or without declared types, end to end**: every resolved spec is an
+    untyped-integer expression, without declared type or with a declared integer type
+    (`const ( a int8 = 1 << iota; b; c )`), accepted by Go with `iota` = its index: the interpreter model gives the
+    block exactly the values and types of the specification. -/
 theorem block_int_correct (specs : List Spec)
     (h : ∀ j r, (Spec.resolveGo none specs)[j]? = some r →
-      (∃ e v, r = some (none, e) ∧ ufrag e = true ∧ noRuneQuo j e = true ∧ Spec.declGo j none e = .ok v) ∨
-      (∃ k e v, r = some (some (.i k), e) ∧ litChain e = true ∧ Spec.declGo j (some (.i k)) e = .ok v)) :
+      (∃ e v, r = some (none, e) ∧ ufrag e = true ∧ litBound e = true ∧ Spec.declGo j none e = .ok v) ∨
+      (∃ k e v, r = some (some (.i k), e) ∧ ufrag e = true ∧ litBound e = true ∧ Spec.declGo j (some (.i k)) e = .ok v)) :
     ∃ vs, blockY Expected.C03.facts Expected.C03.declFacts specs = .ok vs ∧ Spec.blockGo specs = vs.map Res.ok := by
   apply iota_block_correct
   intro j r hr
-  rcases h j r hr with ⟨e, v, hre, hs, hq, hgo⟩ | ⟨k, e, v, hre, hl, hgo⟩
-  · exact ⟨none, e, hre, const_decl_correct j e hs hq v hgo⟩
-  · refine ⟨some (.i k), e, hre, ?_⟩
-    cases hev : Spec.evalGo j e with
-    | ok gv => exact (typed_const_decl_exact j k e hl gv hev).1 v hgo
-    | reject => simp [Spec.declGo, hev, Res.bind] at hgo
-    | crash => simp [Spec.declGo, hev, Res.bind] at hgo
-    | unm w => simp [Spec.declGo, hev, Res.bind] at hgo
+  rcases h j r hr with ⟨e, v, hre, hs, hl, hgo⟩ | ⟨k, e, v, hre, hs, hl, hgo⟩
+  · exact ⟨none, e, hre, const_decl_correct j e hs hl v hgo⟩
+  · exact ⟨some (.i k), e, hre, (typed_const_decl_exact j k e hs hl).1 v hgo⟩
 
-/-- non-vacuity: `const ( a int8 = -iota; b; c )` is −0, −1, −2 of type int8 on both sides, and the former F03 input
-    `const y int16 = 40000` is rejected -/
+/-- non-vacuity: `const ( a int8 = 1 << iota; b; c )` is 1, 2, 4 of type int8 on both sides, and the former inputs
+    `const y int16 = 40000`, `const c int8 = 100 + 900` are rejected -/
 example :
-    blockY Expected.C03.facts Expected.C03.declFacts [.explicit (some (.i .int8)) (.un .neg .iota), .implicit, .implicit] =
-      .ok [(.int 0, .i .int8), (.int (-1), .i .int8), (.int (-2), .i .int8)] ∧
-    Spec.blockGo [.explicit (some (.i .int8)) (.un .neg .iota), .implicit, .implicit] =
-      [.ok (.int 0, .i .int8), .ok (.int (-1), .i .int8), .ok (.int (-2), .i .int8)] ∧
+    blockY Expected.C03.facts Expected.C03.declFacts [.explicit (some (.i .int8)) (.bin .shl (.int 1) .iota), .implicit, .implicit] =
+      .ok [(.int 1, .i .int8), (.int 2, .i .int8), (.int 4, .i .int8)] ∧
+    Spec.blockGo [.explicit (some (.i .int8)) (.bin .shl (.int 1) .iota), .implicit, .implicit] =
+      [.ok (.int 1, .i .int8), .ok (.int 2, .i .int8), .ok (.int 4, .i .int8)] ∧
     constDeclY Expected.C03.facts (some (.i .int16)) (.int 40000) = .rejectOrCrash ∧
-    Spec.declGo 0 (some (.i .int16)) (.int 40000) = .reject := by decide
+    Spec.declGo 0 (some (.i .int16)) (.int 40000) = .reject ∧
+    constDeclY Expected.C03.facts (some (.i .int8)) (.bin .add (.int 100) (.int 900)) = .rejectOrCrash ∧
+    Spec.declGo 0 (some (.i .int8)) (.bin .add (.int 100) (.int 900)) = .reject := by decide +kernel
 
-/-! ### witnesses: what the side conditions exclude are real differences (each is a listed finding) -/
+/-! ### witnesses: the differences that are left (each is a listed finding) -/
 
-/-- typed constant arithmetic wraps instead of being rejected: `int8(100) + int8(100)` is −56 -/
-theorem typed_arith_wraps_witness :
-    (evalY Expected.C03.facts { iota := 0 } none (.bin .add (.conv (.i .int8) (.int 100)) (.conv (.i .int8) (.int 100)))).bind
-        (fun n => .ok n.rv) = .ok (.r (.i .int8) (.int (-56))) ∧
-    Spec.evalGo 0 (.bin .add (.conv (.i .int8) (.int 100)) (.conv (.i .int8) (.int 100))) = .reject := by decide
+/-- F03-18: a declared type is copied onto an operator at the top of the initialiser before its operands are looked
+    at; when the operands are typed constants of another type the mismatch goes unnoticed:
+    `var c0 int8 = int16(1) + 2` is 3 (Go: cannot use int16 as int8) -/
+theorem typed_decl_mismatch_witness :
+    varDeclY Expected.C03.facts (some (.i .int8)) (.bin .add (.conv (.i .int16) (.int 1)) (.int 2)) = .ok (.int 3, .i .int8) ∧
+    Spec.declGo 0 (some (.i .int8)) (.bin .add (.conv (.i .int16) (.int 1)) (.int 2)) = .reject ∧
+    Class.declMismatch 0 (some (.i .int8)) (.bin .add (.conv (.i .int16) (.int 1)) (.int 2)) = true := by decide
 
-/-- the former signed gap inside an expression (F03, fixed): `int8(200)` and `int8(-200)` are rejected, as by Go,
-    and the boundary `int8(-128)` is accepted with Go's value -/
-example :
-    evalY Expected.C03.facts { iota := 0 } none (.conv (.i .int8) (.int 200)) = .reject ∧
-    Spec.evalGo 0 (.conv (.i .int8) (.int 200)) = .reject ∧
-    evalY Expected.C03.facts { iota := 0 } none (.conv (.i .int8) (.un .neg (.int 200))) = .reject ∧
-    Spec.evalGo 0 (.conv (.i .int8) (.un .neg (.int 200))) = .reject ∧
-    (evalY Expected.C03.facts { iota := 0 } none (.conv (.i .int8) (.un .neg (.int 128)))).bind (fun n => .ok n.rv) =
-      .ok (.r (.i .int8) (.int (-128))) ∧
-    Spec.evalGo 0 (.conv (.i .int8) (.un .neg (.int 128))) = .ok ⟨.int (-128), .t (.i .int8)⟩ := by decide
+/-- F03-14: a package-level constant declaration is walked three times; in the later walks the operand of a
+    conversion still carries the type the conversion left on it, and `check.binaryExpr` compares it with the types of
+    its operands: `const c0 = string('a' + 1)` is rejected ("cannot use type untyped rune as type string"), Go: "b" -/
+theorem const_later_walk_witness :
+    constDeclY Expected.C03.facts none (.conv .str (.bin .add (.rune 97) (.int 1))) = .reject ∧
+    Spec.declGo 0 none (.conv .str (.bin .add (.rune 97) (.int 1))) = .ok (.str [98], .str) ∧
+    varDeclY Expected.C03.facts none (.conv .str (.bin .add (.rune 97) (.int 1))) = .ok (.str [98], .str) := by decide
 
-/-- a typed constant division by zero is a Go run-time panic inside the compiler: `int(1) / int(0)` -/
-theorem typed_div_zero_witness :
-    evalY Expected.C03.facts { iota := 0 } none (.bin .quo (.conv (.i .int) (.int 1)) (.conv (.i .int) (.int 0))) = .crash ∧
-    Spec.evalGo 0 (.bin .quo (.conv (.i .int) (.int 1)) (.conv (.i .int) (.int 0))) = .reject := by decide
+/-- F03-19: `true << 1` is a Go panic in `check.shift` (the rval of `true` is a Go bool, not a go/constant value) -/
+theorem bool_shift_panic_witness :
+    evalY Expected.C03.facts { iota := 0 } none (.bin .shl (.bool true) (.int 1)) = .crash ∧
+    Spec.evalGo 0 (.bin .shl (.bool true) (.int 1)) = .reject := by decide
 
-/-- `'a' / 2` has type untyped int for the interpreter, untyped rune for Go -/
-theorem rune_quo_type_witness :
-    (evalY Expected.C03.facts { iota := 0 } none (.bin .quo (.rune 97) (.int 2))).bind (fun n => .ok (n.rv, n.ty)) =
-      .ok (.c (.int 48), .u .int) ∧
-    Spec.evalGo 0 (.bin .quo (.rune 97) (.int 2)) = .ok ⟨.int 48, .u .rune⟩ := by decide
-
-/-- a quotient skips the operand checks: `int8(7) / int16(2)` is accepted -/
-theorem quo_unchecked_witness :
-    (evalY Expected.C03.facts { iota := 0 } none (.bin .quo (.conv (.i .int8) (.int 7)) (.conv (.i .int16) (.int 2)))).bind
-        (fun n => .ok n.rv) = .ok (.r (.i .int8) (.int 3)) ∧
-    Spec.evalGo 0 (.bin .quo (.conv (.i .int8) (.int 7)) (.conv (.i .int16) (.int 2))) = .reject := by decide
-
-set_option exponentiation.threshold 1024 in
-set_option maxRecDepth 8000 in
-/-- no limit on untyped integer constants: `1 << 600 >> 599` is accepted (the toolchain: constant overflow) -/
-theorem untyped_limit_witness :
-    (evalY Expected.C03.facts { iota := 0 } none (.bin .shr (.bin .shl (.int 1) (.int 600)) (.int 599))).bind
-        (fun n => .ok n.rv) = .ok (.c (.int 2)) ∧
-    Spec.evalGo 0 (.bin .shr (.bin .shl (.int 1) (.int 600)) (.int 599)) = .reject := by decide +kernel
-
-theorem evalY_full_statement_false : ¬ evalY_full_statement := by
-  intro h
-  have := h 0 (.bin .add (.conv (.i .int8) (.int 100)) (.conv (.i .int8) (.int 100))) rfl
-  revert this; decide
-
-/-- a typed declaration whose initialiser is an operator expression is not checked: `var c uint8 = 100 - 101` is 255 -/
-theorem typed_decl_unchecked_witness :
-    varDeclY Expected.C03.facts (some (.i .uint8)) (.bin .sub (.int 100) (.int 101)) = .ok (.int 255, .i .uint8) ∧
-    Spec.declGo 0 (some (.i .uint8)) (.bin .sub (.int 100) (.int 101)) = .reject := by decide
-
-/-- `const c = float64(0.5 + 0.25)` is 0: in the second walk the operand of the conversion is a go/constant value
-    with a typed `typ`, and the conversion case takes `Int64Val(ToInt(…))` -/
-theorem const_conv_float_zero_witness :
-    constDeclY Expected.C03.facts none (.conv .f64 (.bin .add (.flt ⟨1, 2⟩) (.flt ⟨1, 4⟩))) = .ok [(.flt ⟨0, 1⟩, .f64)] ∧
-    Spec.declGo 0 none (.conv .f64 (.bin .add (.flt ⟨1, 2⟩) (.flt ⟨1, 4⟩))) = .ok (.flt ⟨3, 4⟩, .f64) := by decide
-
-/-- `const c int = 3 * (1)` (a Go panic in `fixUntyped` before 08f21a9) is 3 on both sides -/
-example :
-    constDeclY Expected.C03.facts (some (.i .int)) (.bin .mul (.int 3) (.par (.int 1))) = .ok [(.int 3, .i .int)] ∧
-    Spec.declGo 0 (some (.i .int)) (.bin .mul (.int 3) (.par (.int 1))) = .ok (.int 3, .i .int) := by decide
-
-/-- `var c = 'a'` at package level has type int (Go: int32): gta's `nodeType` turns the literal into an Int constant -/
-theorem global_var_rune_witness :
-    varDeclY Expected.C03.facts none (.rune 97) = .ok (.int 97, .i .int) ∧
-    Spec.declGo 0 none (.rune 97) = .ok (.int 97, .i .int32) := by decide
+/-- F03-20: `len` of a *typed* constant string is a constant only inside constant declarations; elsewhere it stays a
+    run-time call and the expression around it is not checked as a constant (outside the model) -/
+theorem len_typed_string_witness :
+    varDeclY Expected.C03.facts none (.conv (.i .uint64) (.bin .shl (.un .neg (.int 1)) (.len (.conv .str (.str [97, 98]))))) =
+      .unm "len-at-run-time" ∧
+    Spec.declGo 0 none (.conv (.i .uint64) (.bin .shl (.un .neg (.int 1)) (.len (.conv .str (.str [97, 98]))))) = .reject := by
+  decide
 
 end YaegiVerif.Props.C03
